@@ -625,7 +625,9 @@ func main() {
 		c.Model("From PlzV Require Import Model.C38.", "C38.case", "C38.check")
 		c.Rule("bytes: all 256 single bytes after `x = 1` through asp.ParseData (exhaustive). " +
 			"simplify: generated runs of top-level subinclude calls (plain, single-quoted, raw, triple-quoted, f-string with and without interpolation, concatenation, list, identifier arguments; 0-3 arguments; attached comments, comment blocks, blank lines and other statements between them) through buildtools ParseBuild and the real simplify; non-trivial = at least one merge or an unmergeable call next to a mergeable one. " +
-			"e2e: generated BUILD and build_defs files (string concatenation with + and implicit, f-strings, raw / single / triple quoted strings with escapes, % and format(), annotations with aliases and unions, comprehensions, inline if, dict |, lambdas, slices, top-level if/for, rule calls with literal and computed attributes, consecutive subincludes) formatted by the real format() and evaluated by the real plz binary before and after (every target, every attribute, every variable through a probe target), second format pass; distinct = distinct source texts; non-trivial = accepted by Please before formatting and changed by the formatter")
+			"e2e: generated BUILD and build_defs files (string concatenation with + and implicit, f-strings, raw / single / triple quoted strings with escapes, % and format(), annotations with aliases and unions, comprehensions, inline if, dict |, lambdas, slices, top-level if/for, rule calls with literal and computed attributes, consecutive subincludes) formatted by the real format() and evaluated by the real plz binary before and after (every target, every attribute, every variable through a probe target), second format pass; distinct = distinct source texts; non-trivial = accepted by Please before formatting and changed by the formatter. " +
+			"chains (inside e2e): files of 6-12 generated operator chains [-|not] atom (op [-|not] atom)* over literals, variables and nested parentheses - a unary minus next to the literal, separated by a space, or in front of a (nested) parenthesised literal, followed by + - * / // % and, in boolean chains, by the six comparisons and and/or; integer literals spelled 017 / 007 / 0o17; every expression is compared on its own (value before = value after) and every integer chain is a model case (printed text, value before, value after); non-trivial = the formatter changes the expression text. " +
+			"strings: generated plain literals in all four quotings built from words, non-standard escapes (backslash + $ d . s), quotes of the other kind (plain and escaped), escaped own quotes, the escapes n t backslash r a, raw newlines and own quotes inside triple quotes, backslash-newline continuations (in single-line literals only every 40th case: listed finding), through the real asp lexer before and after the real format(); non-trivial = the formatter re-quotes the literal")
 		gologging.SetLevel(gologging.CRITICAL, "plz")
 		state := core.NewDefaultBuildState()
 		parser = asp.NewParser(state)
